@@ -167,6 +167,7 @@ fn scenario(ctx: &Ctx, idx: u64) -> Report {
             .with("t_up_s", t_up / SEC);
 
         // ---- run
+        net.set_send_yield(*[0.0, 0.0, 0.3, 1.0].choose(&mut rng).unwrap());
         let dht = spawn_node(&net, &cfg);
         report.evaluations += 1;
         report.distinct(format!(
